@@ -12,8 +12,10 @@ import random
 from vlib import common, noisecases, noisesim
 
 VFILE = "Properties/C03.v"
-NAMES = [None, b"", b"dev", b"other-device", "küche".encode(), b"a" * 40]
-EXPECTED = [None, "dev", "other-device", "küche", "Dev"]
+NAMES = [None, b"", b"dev", b"other-device", "küche".encode(), b"a" * 40,
+         # near misses of an expected name: it as a proper prefix / suffix of the announced one, and the other way round, other case
+         b"dev2", b"dev-kitchen", b"de", b"xdev", b"DEV", b"dev "]
+EXPECTED = [None, "dev", "other-device", "küche", "Dev", "dev", "dev", "de"]
 
 
 def accept(name, expected):
@@ -166,6 +168,18 @@ def run(rep, tier, seed):
             if got != want:
                 rep.violation("C03/honest-session", f"honest responder, one message of {size} payload bytes between two small ones, chunking '{mode}': delivered (type, length) {got}, sent {want}",
                               {"kind": "impl-case", "variant": "big-frame", "size": size, "chunking": mode})
+    # ---- long runs of frames per read (several hundred complete frames in two or three reads that end inside a frame), the event
+    # loop left to run between the reads: every message is delivered, in order, none twice
+    for trial in range(4 if tier == "quick" else 24):
+        n = rng.choice([150, 201, 300, 500])
+        got, want, err = many_frames_probe(rng, n, trial)
+        rep.case(("many-frames", n, trial), True, sample={"many_frames": n, "delivered": len(got), "error": err})
+        rep.bump("many-frames")
+        if got != want or err:
+            first = next((i for i, (a, b) in enumerate(zip(got, want)) if a != b), min(len(got), len(want)))
+            rep.violation("C03/honest-session", f"honest responder, {n} small messages in a few reads that end inside a frame: {len(got)} delivered, "
+                          f"first difference at message {first}{' ; ' + err if err else ''}",
+                          {"kind": "impl-case", "variant": "many-frames", "n": n, "trial": trial})
     # ---- the same sessions through the real APIConnection / APIClient: what the responder encrypted right behind its handshake
     # frame is delivered whatever the segmentation, and the name rule is applied afresh in every session of a client
     from vlib import simnet
@@ -199,6 +213,48 @@ def run(rep, tier, seed):
                                 "first_disagreements": disagreements[:3]}))
     if not proofs_ok and not rep.violations:
         rep.proof_broken(rep.broken[0], rep.broken[1])
+
+
+def many_frames_probe(rng, n, trial):
+    from vlib import noisesim
+    loop = asyncio.get_event_loop()
+    psk = bytes(range(1, 33))
+    resp = noisesim.Responder(psk, b"dev")
+    sess = noisesim.ImplSession(noisesim.b64(psk), None)
+    sess.op("made")
+    hs_frame, _ = resp.handshake_frames(noisesim.split_frames(sess.writes[0])[1][1:])
+    sess.op("data", resp.hello_frame() + hs_frame)
+    msgs = [(26 + (i % 3), bytes([i & 255, i >> 8])) for i in range(n)]
+    parts = [resp.data_frame(t, p)[0] for t, p in msgs]
+    stream = b"".join(parts)
+    # read boundaries: each inside a frame, with more than 64 complete frames on either side
+    offs, acc = [], 0
+    for p in parts:
+        offs.append(acc)
+        acc += len(p)
+    k1 = rng.randrange(70, n // 2)
+    k2 = rng.randrange(n // 2 + 1, n - 70) if trial % 2 else None
+    cuts = [offs[k1] + rng.randrange(1, len(parts[k1]))] + ([offs[k2] + rng.randrange(1, len(parts[k2]))] if k2 else [])
+    chunks = [stream[a:b] for a, b in zip([0] + cuts, cuts + [len(stream)])]
+    err = None
+    got = []
+
+    def take(evs):
+        nonlocal err
+        for e in evs:
+            if isinstance(e, str) and e.startswith("D:"):
+                _, t, p = e.split(":")
+                got.append((int(t, 16), bytes.fromhex(p) if p != "-" else b""))
+            elif isinstance(e, str) and (e.startswith("FATAL") or e.startswith("RAISE")):
+                err = e
+    for c in chunks:
+        n0 = len(sess.conn.events)
+        take(sess.op("data", c))
+        for _ in range(40):     # whatever the helper scheduled for "later" gets its turn
+            loop.run_until_complete(asyncio.sleep(0))
+        take(sess.conn.events[n0:])
+        del sess.conn.events[n0:]
+    return got, msgs, err
 
 
 def big_frame_probe(rng, size, mode):
